@@ -109,6 +109,37 @@ def search(rep: C.Report, tier: str, broken):
                 cmp(f"kappa@{vw:.3f}", h.efficiencyFactor(vw), t.efficiencyFactor(vw), 3e-3, {"vw": vw})
             except Exception as ex:  # noqa: BLE001
                 rep.count("efficiencyFactor raised " + type(ex).__name__)
+    # ---- efficiency factor of slow walls in WEAK transitions (alpha_n ~ 1e-3, psi_n close to 1): the plasma in front of the wall moves at
+    # 1e-4 .. 1e-2 only, yet the shock wave carries all of kappa there
+    weak = [dict(alpha=1e-3, psi=0.9995, cs2=0.31, cb2=0.28, Tn=1.0), dict(alpha=3e-3, psi=0.995, cs2=0.33, cb2=0.30, Tn=100.0)]
+    if tier == "thorough":
+        weak += [dict(alpha=10 ** r.uniform(-3, -2), psi=r.uniform(0.998, 0.9999), cs2=r.uniform(0.25, 1 / 3), cb2=r.uniform(0.22, 0.3),
+                      Tn=10 ** r.uniform(-2, 2)) for _ in range(4)]
+    for p in weak:
+        e = make_eos(p)
+        if not (e.eps > 0 and e.pHighT(e.Tnucl) < e.pLowT(e.Tnucl)):
+            rep.count("weak-transition point skipped")
+            continue
+        try:
+            h = HC.make_hydro(e)
+        except Exception as ex:  # noqa: BLE001
+            rep.count("hydro construction raised " + type(ex).__name__)
+            continue
+        for vw in (0.05, 0.1, 0.2, 0.35):
+            if not (h.vMin < vw < h.vJ - 0.02):
+                continue
+            rep.case(key=("weak-kappa", str(sorted(p.items())), vw))
+            rep.count("kappa of slow walls in weak transitions")
+            try:
+                a_, b_ = float(h.efficiencyFactor(vw)), float(h.template.efficiencyFactor(vw))
+            except Exception as ex:  # noqa: BLE001
+                rep.count("efficiencyFactor raised " + type(ex).__name__)
+                continue
+            if not (np.isfinite(a_) and np.isfinite(b_) and abs(a_ - b_) <= 3e-3 * max(abs(a_), abs(b_))):
+                rep.violation(f"general and template solver disagree on the efficiency factor of a slow wall in a weak transition: {a_} vs {b_}",
+                              {"params": p, "vw": vw, "general": a_, "template": b_,
+                               "how": "props/C15.make_eos(params) -> Hydrodynamics(...).efficiencyFactor(vw) vs .template.efficiencyFactor(vw)"},
+                              finding_key="C15:kappa-weak")
     # ---- LTE wall velocity across the runaway threshold: the transition strength is scanned through the value where the general solver's
     # answer jumps to the runaway sentinel (located by bisection); outside a 2.5 % margin around it both solvers must agree, in particular
     # just ABOVE it (both runaway) and just below it (same interior root)
